@@ -19,6 +19,7 @@ import SamVerif.Drive.C08
 import SamVerif.Drive.C20
 import SamVerif.Drive.C16
 import SamVerif.Drive.C02
+import SamVerif.Drive.C01
 open SamVerif.Drive
 
 def dispatch (line : String) : String :=
@@ -40,6 +41,7 @@ def dispatch (line : String) : String :=
     else if k.startsWith "c20." then C20.handle k args impl
     else if k.startsWith "c16." then C16.handle k args impl
     else if k.startsWith "c02." then C02.handle k args impl
+    else if k.startsWith "c01." then C01.handle k args impl
     else "bad-op"
   | _ => "bad-op"
 
